@@ -222,9 +222,11 @@ func (w *Rewriter) Rewrite(name string, b []byte, depth int) []byte {
 					if len(kept) == 2 && r.Intn(3) == 0 {
 						kept[0], kept[1] = kept[1], kept[0]
 					}
-					if r.Intn(6) == 0 {
+					if r.Intn(4) == 0 {
+						// an unknown field before, between or after key and value
 						u, _ := Split(unknownRecord(r, map[int32]bool{1: true, 2: true}, 1))
-						kept = append(kept, u...)
+						pos := r.Intn(len(kept) + 1)
+						kept = append(kept[:pos], append(u, kept[pos:]...)...)
 					}
 					payload = Join(kept)
 				}
